@@ -12,11 +12,19 @@ pub const BV_SCAN: usize = 72;
 
 pub const BV_WORDS: usize = (BV_SCAN + 63) / 64;
 
+/// Concrete scan length for the current instance (<= BV_SCAN); harnesses set it to the longest
+/// embedded bitvector they build so that the scans are not longer than necessary.
+// stored with a unique offset so that the initial bytes coincide with no other constant (see NOTE below)
+const SCAN_TAG: usize = 0x5CA9_0000;
+static mut SCAN: usize = SCAN_TAG + BV_SCAN;
+pub fn set_scan(n: usize) { assert!(n <= BV_SCAN); unsafe { SCAN = SCAN_TAG + n; } }
+fn scan() -> usize { unsafe { SCAN - SCAN_TAG } }
+
 /// The bits of the embedded vector as local words (one pass over the real buffer).
 #[inline(always)]
 fn words_of(bv: &BitVector) -> (usize, [u64; BV_WORDS]) {
     let n = bv.len();
-    assert!(n <= BV_SCAN, "stub: embedded bitvector longer than the scan bound");
+    assert!(n <= scan(), "stub: embedded bitvector longer than the scan bound");
     let raw: &simple_sds::raw_vector::RawVector = bv.as_ref();
     let data: &[u64] = raw.as_ref();
     let mut w = [0u64; BV_WORDS];
@@ -29,7 +37,7 @@ pub fn bv_rank<'a>(bv: &BitVector, index: usize) -> usize where 'a: 'a {
     let (n, w) = words_of(bv);
     if index < n { assert!(enabled(bv, 1), "rank support was never enabled on this bitvector"); }
     let mut i = 0; let mut r = 0usize;
-    while i < BV_SCAN { if i < n && i < index && (w[i >> 6] >> (i & 63)) & 1 == 1 { r += 1; } i += 1; }
+    while i < scan() { if i < n && i < index && (w[i >> 6] >> (i & 63)) & 1 == 1 { r += 1; } i += 1; }
     r
 }
 
@@ -37,7 +45,7 @@ pub fn bv_select<'a>(bv: &'a BitVector, rank: usize) -> Option<usize> where 'a: 
     let (n, w) = words_of(bv);
     if rank < bv.count_ones() { assert!(enabled(bv, 2), "select support was never enabled on this bitvector"); }
     let mut i = 0; let mut seen = 0usize; let mut res: Option<usize> = None;
-    while i < BV_SCAN {
+    while i < scan() {
         if i < n && (w[i >> 6] >> (i & 63)) & 1 == 1 {
             if seen == rank && res.is_none() { res = Some(i); }
             seen += 1;
@@ -51,7 +59,7 @@ pub fn bv_select_zero<'a>(bv: &'a BitVector, rank: usize) -> Option<usize> where
     let (n, w) = words_of(bv);
     if rank < n - bv.count_ones() { assert!(enabled(bv, 4), "select_zero support was never enabled on this bitvector"); }
     let mut i = 0; let mut seen = 0usize; let mut res: Option<usize> = None;
-    while i < BV_SCAN {
+    while i < scan() {
         if i < n && (w[i >> 6] >> (i & 63)) & 1 == 0 {
             if seen == rank && res.is_none() { res = Some(i); }
             seen += 1;
@@ -65,29 +73,35 @@ pub fn bv_select_zero<'a>(bv: &'a BitVector, rank: usize) -> Option<usize> where
 // of the BitVector value). A query that the real code answers through a support structure
 // asserts that the support was enabled (the real code would panic on `unwrap()` of `None`).
 const SLOTS: usize = 24;
-static mut KEYS: [usize; SLOTS] = [0; SLOTS];
-static mut MASKS: [u8; SLOTS] = [0; SLOTS];
-static mut USED: usize = 0;
+// NOTE: kani-compiler 0.68 may alias a zero-initialised `static mut` with rustc's interned all-zero
+// constant of the same size (then e.g. RawVec's ZERO_CAP changes when the static is written). All
+// mutable statics in the harness crate are therefore initialised with NON-ZERO bytes.
+static mut KEYS: [*const u64; SLOTS] = [std::ptr::NonNull::<u64>::dangling().as_ptr() as *const u64; SLOTS];
+static mut MASKS: [u8; SLOTS] = [0xB0; SLOTS];
+const USED_TAG: usize = 0x05ED_0000;
+static mut USED_T: usize = USED_TAG;
 
-fn key_of(bv: &BitVector) -> usize {
+fn key_of(bv: &BitVector) -> *const u64 {
     let raw: &simple_sds::raw_vector::RawVector = bv.as_ref();
     let data: &[u64] = raw.as_ref();
-    data.as_ptr() as usize
+    data.as_ptr()
 }
 fn enable(bv: &BitVector, bit: u8) {
     let k = key_of(bv);
     unsafe {
+        let used = USED_T - USED_TAG;
         let mut i = 0;
-        while i < SLOTS { if i < USED && KEYS[i] == k { MASKS[i] |= bit; return; } i += 1; }
-        assert!(USED < SLOTS, "stub: too many embedded bitvectors");
-        KEYS[USED] = k; MASKS[USED] = bit; USED += 1;
+        while i < SLOTS { if i < used && KEYS[i] == k { MASKS[i] |= bit; return; } i += 1; }
+        assert!(used < SLOTS, "stub: too many embedded bitvectors");
+        KEYS[used] = k; MASKS[used] = 0xB0 | bit; USED_T += 1;
     }
 }
 fn enabled(bv: &BitVector, bit: u8) -> bool {
     let k = key_of(bv);
     unsafe {
+        let used = USED_T - USED_TAG;
         let mut i = 0;
-        while i < SLOTS { if i < USED && KEYS[i] == k && MASKS[i] & bit != 0 { return true; } i += 1; }
+        while i < SLOTS { if i < used && KEYS[i] == k && MASKS[i] & bit != 0 { return true; } i += 1; }
     }
     false
 }
